@@ -7,7 +7,7 @@ From Coq Require Import List String Ascii Bool ZArith.
 From Helm Require Import Values.Tree Chart.Paths Chart.Archive Chart.Files Chart.Save Chart.Load Gen.Limits
   Chart.Wf Chart.LoadProofs Chart.AgreeProofs Chart.RecProofs Chart.Examples15
   Chart.Ignore Chart.Utf8 Chart.Match Chart.MatchProofs Chart.IgnoreProofs
-  Chart.Wf2 Chart.Rt2Proofs Chart.Examples15b Chart.OrderProofs Common.SortUniq Chart.SaveDir Chart.DirProofs Chart.Examples15c Gen.IgnoreConsts.
+  Chart.Wf2 Chart.Rt2Proofs Chart.Examples15b Chart.OrderProofs Common.SortUniq Chart.SaveDir Chart.DirProofs Chart.Examples15c Gen.IgnoreConsts Chart.DefaultRuleProofs.
 Import ListNotations.
 Local Open Scope string_scope.
 
@@ -544,3 +544,25 @@ Theorem C15_ignore_constants :
   (forall p, gmatch_err p = existsb (fun n => mres_eqb (gmatch p n) MBad) ignore_match_probes).
 Proof. exact ignore_constants. Qed.
 Print Assumptions C15_ignore_constants.
+
+(* ---------- no .helmignore => exactly the built-in rule applies ---------- *)
+(* LoadDir calls AddDefaults whether or not a .helmignore exists (seeded change C15-5 moved it into
+   the "file exists" branch): without the file, or with a file of blank lines and comments only, the
+   rule set is the single rule templates/.?*; it excludes exactly the paths filepath.Match accepts
+   for that pattern -- dotfiles (and dot directories) directly in templates/ -- and nothing else *)
+Theorem C15_default_rule_without_helmignore :
+  parse_ignore gmatch_err None = Some [default_pat] /\
+  (forall text,
+     Forall (fun l => String.eqb (trim_space l) "" = true \/ String.prefix "#" (trim_space l) = true) (ignore_lines text) ->
+     parse_ignore gmatch_err (Some text) = Some [default_pat]) /\
+  (forall n isdir, rules_ignore gmatch_ok [default_pat] n isdir = negb (special_path n) && gmatch_ok "templates/.?*" n) /\
+  rules_ignore gmatch_ok [default_pat] "templates/.gitkeep" false = true /\
+  rules_ignore gmatch_ok [default_pat] "templates/.DS_Store" false = true /\
+  rules_ignore gmatch_ok [default_pat] "templates/.dir" true = true /\
+  rules_ignore gmatch_ok [default_pat] "templates/." false = false /\
+  rules_ignore gmatch_ok [default_pat] "templates/deployment.yaml" false = false /\
+  rules_ignore gmatch_ok [default_pat] "templates/sub/.hidden" false = false /\
+  rules_ignore gmatch_ok [default_pat] "charts/sub/templates/.swp" false = false /\
+  rules_ignore gmatch_ok [default_pat] ".gitignore" false = false.
+Proof. exact default_rule_only. Qed.
+Print Assumptions C15_default_rule_without_helmignore.
